@@ -564,7 +564,7 @@ class Executor:
         if k == 'zst':
             t = c[1]
             if t.startswith('{closure@'):
-                return self.closure_value(fr, t)
+                return self.closure_value(fr, t, captures=[])
             return self.fnitem(fr, t)
         if k == 'promoted':
             return self.eval_const_fn(self.prog.promoted.get((fr.fn.name, c[1])), '%s::promoted[%d]' % (fr.fn.name, c[1]))
@@ -594,6 +594,10 @@ class Executor:
             for h, f in cands:
                 if h == head:
                     return self.eval_const_fn(f, name)
+            if len(cands) > 1 and fr is not None and fr.fn is not None:
+                # same-named constants of different modules (macro-generated): the one defined nearest in the dump
+                near = min(cands, key=lambda hf: abs(hf[1].text_line - fr.fn.text_line))
+                return self.eval_const_fn(near[1], name)
             return self.fnitem(fr, name)
         raise Inconclusive('const ' + repr(c))
 
@@ -626,7 +630,7 @@ class Executor:
         fr.locals[0] = res[0][2]
         return res[0][2]
 
-    def closure_value(self, fr, t):
+    def closure_value(self, fr, t, captures=None):
         m = re.match(r'\{closure@([^}]*)\}', t)
         span = m.group(1)
         cands = self.prog.closures.get(span, [])
@@ -635,6 +639,11 @@ class Executor:
             c2 = [f for f in cands if f.name.startswith(pre) and '::' not in f.name[len(pre):]]
             if len(c2) >= 1:
                 cands = c2
+        if len(cands) > 1 and captures is not None:
+            # several closures of one function share the macro call-site span: tell them apart by what they capture
+            c3 = [f for f in cands if sorted(f.captures) == sorted(captures)]
+            if len(c3) == 1:
+                cands = c3
         if len(cands) != 1:
             raise Inconclusive('cannot resolve closure %s (%d candidates)' % (t, len(cands)))
         return FnP(cands[0].name, 'closure', cands[0])
@@ -736,7 +745,7 @@ class Executor:
             x = self.operand(st, fr, rv[1])
             return A([x] * int(m.group(1)))
         if k == 'closure':
-            c = self.closure_value(fr, rv[1])
+            c = self.closure_value(fr, rv[1], captures=[n for n, _ in rv[2]])
             if rv[2]:
                 return FnP(c.name, 'closure', c.fn, A([self.operand(st, fr, x) for _, x in rv[2]]))
             return c
@@ -1161,8 +1170,13 @@ class Executor:
         return self.after_call(st, fr, dest, ret_bb, res)
 
     def env_ref(self, st, clo):
+        by_ref = True
+        if clo.fn is not None and clo.fn.arg_types:
+            by_ref = clo.fn.arg_types[0].strip().startswith('&')
         if clo.env is None:
             return UNIT
+        if not by_ref:
+            return clo.env          # FnOnce closures take their environment by value
         k = '__env%d' % st.nfid
         st.nfid += 1
         st.root()[k] = clo.env
